@@ -51,6 +51,7 @@ import Aldrin.Lemmas.Broker.Lookups
 import Aldrin.Lemmas.Broker.Terminate
 import Aldrin.Lemmas.Broker.NoPanic
 import Aldrin.Lemmas.ConnId.Inv
+import Aldrin.Lemmas.Broker.ConnIdBroker
 
 namespace Aldrin.Broker
 
@@ -242,6 +243,26 @@ theorem connection_id_bookkeeping (ops : List ConnId.Op) :
       ∀ i, i < s.ids.next ↔ (i ∈ s.held ∨ i ∈ s.ids.free) := by
   obtain ⟨s, hr, hi⟩ := ConnId.run_ok ConnId.Inv.init ops
   exact ⟨s, hr, hi.freeNd, hi.disj, hi.cover⟩
+
+/-- **The duplicate-id assertion of `NewConnection` cannot fail.** The broker together with its allocator (`Node`): a new
+connection gets the id that `acquire` returns; any other event may happen; the last clone of an id may go at any time
+at which the broker has no connection under it (the key of the broker's map is a clone). After every such history, the
+id that the next `connect` acquires is not the id of a connection the broker has, so the handling of its
+`NewConnection` passes the check — the second alternative of `turn_panics_only_in_introspection` does not occur — and
+the ids of the broker's connections are all in use and the allocator's bookkeeping is right. -/
+theorem new_connection_id_is_never_a_duplicate (es : List NEv) (n : Node) (h : Node.run {} es = .ok n) (v : Nat) :
+    (AL.find? n.ids.ids.acquire.1 n.b.conns).isSome = false ∧
+    (∃ s, handleEvent ⟨n.b, n.w, []⟩ (.newConn n.ids.ids.acquire.1 v) = .ok s) ∧
+    (∀ c conn, AL.find? c n.b.conns = some conn → c ∈ n.ids.held) ∧ n.ids.held.Nodup := by
+  have hi := Node.run_inv es _ _ NInv.init h
+  refine ⟨hi.acquired_is_new, hi.handleEvent_newConn_ok v, ?_, hi.ids.heldNd⟩
+  intro c conn hc
+  exact hi.held c (by simp [exB, hc])
+
+/-! non-vacuity: two connections, the first shuts down and its id goes, a third connection gets the id 0 again -/
+example : (match Node.run {} [.connect 20, .connect 20, .ev (.connShutdown 0), .dropId 0, .connect 18] with
+    | .ok n => (n.b.conns.map (fun p => (p.1, p.2.version)), n.ids.held, n.ids.ids.next) | .error _ => ([], [], 0)) =
+    ([(1, 20), (0, 18)], [0, 1], 2) := by decide
 
 /-! non-vacuity: ids 0 1 2 acquired, 1 then 2 dropped (the second lowers `next`), two more acquired: 1 from the free
 list, then 2 again -/
